@@ -58,8 +58,9 @@ def mk_info(it, prog, kind):
     if kind.startswith('internal'):
         extra = DictV()
         if kind == 'internal+extra':
-            extra.d[7] = K(1000)
-            extra.keyobj[7] = K(7)
+            for k_, v_ in ((7, 1000), ((1 << 31) + 1, 5)):
+                extra.d[k_] = K(v_)
+                extra.keyobj[k_] = K(k_)
         value = it.construct(CC, [K((1 << 120) - 1), it.construct(ECC, [extra], {})], {})
         return it.construct(prog.cls('InternalMsgInfo'), [], dict(ihr_disabled=K(True), bounce=K(False), bounced=K(False), src=addr(it, prog, 0, 0x11), dest=addr(it, prog, -1, 0x22),
                                                                    value=value, ihr_fee=K((1 << 120) - 1), fwd_fee=K(12345), created_lt=lt, created_at=at))
@@ -281,8 +282,51 @@ def history(run, prog, db):
     run.check(ok, 'D1s', 'CurrencyCollection[state shared between instances]' if not ok else 'history: collections without extras are independent', why, prog.where(prog.method('CurrencyCollection', '__init__')))
 
 
+def edited(run, prog, db):
+    """a message whose header was changed after construction (relay / bounce / fee deduction code does this) is a message like any
+    other: what is serialised is what the object holds now, not what it held when it was built"""
+    CC, ECC = prog.cls('CurrencyCollection'), prog.cls('ExtraCurrencyCollection')
+    where = prog.where(prog.method('InternalMsgInfo', 'serialize'))
+
+    def extras(it, d):
+        dv = DictV()
+        for k_, v_ in d.items():
+            dv.d[k_] = K(v_)
+            dv.keyobj[k_] = K(k_)
+        return it.construct(ECC, [dv], {})
+    edits = {
+        'value replaced': lambda it, info: it.setattr(info, 'value', it.construct(CC, [K(777), extras(it, {3: 9})], {})),
+        'value.grams changed in place': lambda it, info: it.setattr(info.attrs['value'], 'grams', K(55)),
+        'value.other replaced': lambda it, info: it.setattr(info.attrs['value'], 'other', extras(it, {11: 4})),
+        'fwd_fee changed': lambda it, info: it.setattr(info, 'fwd_fee', K(1)),
+        'ihr_fee changed': lambda it, info: it.setattr(info, 'ihr_fee', K(2)),
+        'bounce set': lambda it, info: it.setattr(info, 'bounce', K(True)),
+        'dest replaced': lambda it, info: it.setattr(info, 'dest', addr(it, prog, 0, 0x33)),
+    }
+    for kind in ('internal', 'internal+extra'):
+        for name, edit in edits.items():
+            it = Interp(prog)
+            info = mk_info(it, prog, kind)
+            msg = it.construct(prog.cls('MessageAny'), [info, K(None), mk_body(it, 8, 0)], {})
+            try:
+                cm.call_method(it, msg, 'serialize')                # serialised once before the edit, as relay code does
+                edit(it, info)
+                cell = cm.call_method(it, msg, 'serialize')
+                decode(it, db, cell, 'Message', [('id', 'Any')])
+                back = it.call(it.getattr(prog.cls('MessageAny'), 'deserialize'), [cm.call_method(it, cell, 'begin_parse')], {})
+                diff = compare_msg(it, msg, back)
+                ok, why = diff is None, f'{kind}, {name}, then serialised: ' + ('the parser returns the message as it is now' if diff is None else f'{diff} - the cell carries a value the object no longer holds')
+            except Mismatch as e:
+                ok, why = False, f'{kind}, {name}: the cell does not follow the schema: {str(e)[:160]}'
+            except RaiseEx as e:
+                ok, why = False, f'{kind}, {name}: raises {e}'
+            run.check(ok, 'D5', 'MessageAny.serialize[header edited after construction]' if not ok else f'edited: {kind}, {name}', why, where)
+            run.evaluations += 1
+
+
 def wrappers(run, prog, db):
     history(run, prog, db)
+    edited(run, prog, db)
     def sym(n):
         return Sym(n, ty='int', key=('w', n), not_none=True, lo=0, hi=127)        # any small non-negative integer: fits every integer field of the wrappers
 
@@ -294,7 +338,7 @@ def wrappers(run, prog, db):
         for t in ((True, False), (False, True)):
             out.append(('TickTock', f'TickTock{t}', it.construct(prog.cls('TickTock'), [K(t[0]), K(t[1])], {}), 'TickTock', ['tick', 'tock']))
         for grams in (0, 1, (1 << 120) - 1):
-            for extra in ({}, {5: 1, 9: (1 << 248) - 1}):
+            for extra in ({}, {5: 1, 9: (1 << 248) - 1}, {0: 1, (1 << 31) - 1: 2, 1 << 31: 3, (1 << 32) - 1: 4}):       # ids are 32-bit unsigned keys
                 d = DictV()
                 for k, v in extra.items():
                     d.d[k] = K(v)
